@@ -234,7 +234,7 @@ def special(prop, tier, seed, th, chk):
             fails.append("FAIL C13 hard | cfg flags / provider of a real build differ from Hx.Build + the generated lattice | variant=%s | real: %s | model: %s" % (v, info, want))
         # the shared corpus under this variant (judged against the one model): scanners, placements, chunk sizes
         for fam in (["place", "chunk", "scan", "core"] if v not in ("dev", "release") else []):
-            r = chk.family_run(fam, tier, seed, v, th)
+            r = chk.family_run(fam, "quick" if v.startswith("release-") else tier, seed, v, th)
             out.append(r)
         # 16-thread cold-start races in fresh processes
         if "nostd" not in v:
@@ -269,7 +269,8 @@ def special(prop, tier, seed, th, chk):
                             fails2.append("FAIL C13 hard | switch combination does not compile | %s | %s" % (name, err[-400:].replace("\n", " ")))
                             continue
                         info = subprocess.run([binp, "info"], capture_output=True, text=True, env=chk.ENV).stdout.strip()
-                        bits = "%d0%d11%d1%d%d" % (std, dis, dct, s4, a2)
+                        # rustc: +avx2 implies +avx, +sse4.2, … so the feature list build.rs sees contains sse4.2 too
+                        bits = "%d0%d11%d1%d%d" % (std, dis, dct, 1 if (s4 or a2) else 0, a2)
                         want = subprocess.run([chk.DRIVER, "buildflags"], input="buildenv %s x86_64\n" % bits, capture_output=True, text=True, env=chk.ENV).stdout.strip()
                         kv = dict(x.split("=", 1) for x in info.split() if "=" in x)
                         wkv = dict(x.split("=", 1) for x in want.split("=> ")[-1].split() if "=" in x)
